@@ -78,7 +78,8 @@ pub struct Limits {
     pub max_wall: Duration,
     pub restoration_check: bool,
     pub obs_cap: usize,
-    /// once a violation has been found, stop as soon as this many states exist (a broken
+    /// once a violation has been found, stop as soon as this many states exist - or twice the
+    /// number that existed when the first violation was found, whichever is larger (a broken
     /// implementation can have a vastly larger - even unbounded - state space than the correct
     /// one; the verdict is already known and the shallowest traces have been seen)
     pub states_after_violation: usize,
@@ -91,7 +92,7 @@ impl Default for Limits {
             max_wall: Duration::from_secs(std::env::var("XS_MAX_WALL_S").ok().and_then(|s| s.parse().ok()).unwrap_or(1500)),
             restoration_check: true,
             obs_cap: 2_000_000,
-            states_after_violation: 300_000,
+            states_after_violation: 20_000,
         }
     }
 }
@@ -278,6 +279,7 @@ pub fn explore<S: System>(sys: &S, limits: &Limits) -> Outcome<S> {
     // signature -> (violation, parent, action, count)
     let mut found: BTreeMap<String, (Violation, u32, S::Action, u64)> = BTreeMap::new();
     let mut cap: Option<String> = None;
+    let mut first_violation_at: Option<usize> = None;
     let mut max_bucket = 1usize;
     let mut depth = 0usize;
 
@@ -502,7 +504,10 @@ pub fn explore<S: System>(sys: &S, limits: &Limits) -> Outcome<S> {
                 ));
                 break 'levels;
             }
-            if !found.is_empty() && nodes.len() > limits.states_after_violation {
+            if !found.is_empty() && first_violation_at.is_none() {
+                first_violation_at = Some(nodes.len());
+            }
+            if first_violation_at.map_or(false, |n0| nodes.len() > limits.states_after_violation.max(2 * n0)) {
                 cap = Some(format!(
                     "stopped at {} states after a violation had been found (BFS depth {}; levels below {} fully expanded)",
                     nodes.len(), depth, depth
